@@ -214,6 +214,9 @@ func (c *call) upperBound() time.Time {
 			ub = x
 		}
 	}
+	if ub.Before(c.t0) {
+		ub = c.t0 // a timeout that is not positive: the deadline has passed when the call is made
+	}
 	return ub
 }
 
